@@ -127,9 +127,17 @@ def write_then_forget(ctx: Ctx, chk, loss_only: bool = False) -> None:
                     chk.refute(rule, k, f"a normal path from the send reaches the next iteration without removing the entry ({' -> '.join(g.path_text(p)[:4])}): a written command is written again at the next wake", ctx.loc(f, s.ast))
     # no other function removes from set_messages (a helper called only by the flush is judged at its call site above)
     by_flush = {nm for f in flushes for _c, nm in sb.helper_calls(ctx, f, "removes", "set_messages")}
-    by_other = {nm for f in ctx.prog.all_functions() if f not in flushes for _c, nm in sb.helper_calls(ctx, f, "removes", "set_messages")}
+    # a flush judged with its private loop-body helper written out: the helper is part of the flush
+    flush_own = set(flushes) | {getattr(f, "original", f) for f in flushes}
+
+    def only_called_by_flush(h) -> bool:
+        users = [g_ for g_ in ctx.prog.all_functions() if g_ is not h and any((isinstance(x, ast.Name) and x.id == h.name) or (isinstance(x, ast.Attribute) and x.attr == h.name) for x in ctx.own_nodes(g_))]
+        return bool(users) and all(g_ in flush_own for g_ in users)
+
+    part_of_flush = flush_own | {h for f in flushes for h in getattr(f, "inlined_funcs", []) if only_called_by_flush(h)}
+    by_other = {nm for f in ctx.prog.all_functions() if f not in part_of_flush for _c, nm in sb.helper_calls(ctx, f, "removes", "set_messages")}
     for f in ctx.prog.all_functions():
-        if f in flushes:
+        if f in part_of_flush:
             continue
         if f.fq in by_flush and f.fq not in by_other:
             continue
@@ -193,7 +201,7 @@ def error_propagates(ctx: Ctx, chk) -> None:
             for p in up:
                 caller, call = p[-1]
                 for t in ctx.I.resolve_call(call, caller):
-                    if t.frame is not None and t.frame.func is f:
+                    if t.frame is not None and t.frame.func is getattr(f, "original", f):
                         ffr = t.frame
             if ffr is None:
                 continue
